@@ -183,7 +183,33 @@ func mutateDoc(rng *rand.Rand, doc M) string {
 		return "none"
 	}
 	n := nodes[rng.Intn(len(nodes))]
-	switch rng.Intn(9) {
+	switch rng.Intn(10) {
+	case 9:
+		// change the letter case of a keyword value the Swagger schema pins with an enum ("in": "Query", "type": "String",
+		// "collectionFormat": "CSV", a scheme "HTTPS"): enums are compared exactly
+		var cands []jnode
+		for _, c := range nodes {
+			v, isStr := nodeGet(c).(string)
+			if !isStr || v == "" {
+				continue
+			}
+			if k, ok := c.key.(string); ok && (k == "in" || k == "type" || k == "collectionFormat") {
+				cands = append(cands, c)
+			} else if _, inList := c.parent.(L); inList && (v == "http" || v == "https" || v == "ws" || v == "wss") {
+				cands = append(cands, c)
+			}
+		}
+		if len(cands) == 0 {
+			return "none"
+		}
+		c := cands[rng.Intn(len(cands))]
+		v := nodeGet(c).(string)
+		if rng.Intn(2) == 0 {
+			nodeSet(c, strings.ToUpper(v))
+		} else {
+			nodeSet(c, strings.ToUpper(v[:1])+v[1:])
+		}
+		return "caseFlip"
 	case 0:
 		if m, ok := n.parent.(M); ok {
 			delete(m, n.key.(string))
